@@ -37,7 +37,7 @@ UNKNOWN_CODES = [11, 12, 13, 19, 21, 30, 99, 128, 200, 254, 255]
 
 
 def counts(tier: str):
-    return (400, 75.0) if tier == 'quick' else (20000, 900.0)
+    return (1500, 75.0) if tier == 'quick' else (40000, 900.0)
 
 
 # --------------------------------------------------------------------------- generation
@@ -51,7 +51,9 @@ def gen_kind(rng, idx: int) -> dict:
     if (1, 1) not in fams and rng.chance(0.7):
         fams.insert(0, (1, 1))
     ap = [f for f in fams if rng.chance(0.35) and f[1] != 2]  # ExaBGP does not negotiate ADD-PATH for multicast (C07 assumption)
-    return {'idx': idx, 'peer_ip': f'10.0.0.{2 + idx}', 'peer_as': peer_as, 'asn4': asn4, 'families': fams, 'addpath': ap}
+    # RFC 8950 extended next hop for the IPv4 families that are negotiated
+    nhe = [f for f in fams if f[0] == 1 and f[1] in (1, 4, 128) and (2, f[1]) in fams] if rng.chance(0.3) else []  # ExaBGP only advertises the pair when the IPv6 family of the same SAFI is configured too
+    return {'idx': idx, 'peer_ip': f'10.0.0.{2 + idx}', 'peer_as': peer_as, 'asn4': asn4, 'families': fams, 'addpath': ap, 'nexthop_ext': nhe}
 
 
 def gen_prefix(rng, afi: int) -> str:
@@ -133,12 +135,17 @@ def gen_attrs(rng, kind: dict, need_nh: bool, any_nlri: bool) -> list:
         if mode == 'plain':
             if big:
                 mode = 'as4'
+        if mode == 'as4-longer' and any(t != 2 for t, _ in two):
+            mode = 'as4'  # with a set in the path the comparison of lengths depends on how a set is counted
         if mode == 'as4-prepended':
             pre = [rng.randint(1, 65535) for _ in range(rng.randint(1, 3))]
             if two and two[0][0] == 2:
                 two[0][1] = pre + two[0][1]
             else:
                 two.insert(0, [2, pre])
+            if rng.chance(0.3):
+                # an OLD speaker aggregated: a set in front of everything (same result however a set is counted)
+                two.insert(0, [1, sorted({rng.randint(1, 65535) for _ in range(rng.randint(1, 3))})])
         out.append(['as_path', two, opts()])
         if mode in ('as4', 'as4-prepended') and path:
             out.append(['as4_path', path, opts(True)])
@@ -219,7 +226,11 @@ def gen_update(rng, kind: dict) -> dict:
     if rng.chance(0.45):
         f = rng.choice(fams)
         n = [gen_nlri(rng, f, f in ap) for _ in range(rng.choice([1, 1, 2, 5, 30]))]
-        if f[0] == 1 and f[1] != 128:
+        if f[0] == 1 and list(f) in [list(x) for x in kind.get('nexthop_ext', [])] and rng.chance(0.6):
+            nh = [rng.choice(['2001:db8::9', '2001:db8:ffff::1'])]
+            if rng.chance(0.3) and f[1] != 128:
+                nh.append('fe80::1')
+        elif f[0] == 1 and f[1] != 128:
             nh = [rng.choice(['10.0.0.9', '192.0.2.77'])]
         elif f[0] == 1:
             nh = [rng.choice(['10.0.0.9', '192.0.2.77'])]
@@ -509,6 +520,10 @@ def execute(plan: dict) -> dict:
             }
         )  # fmt: skip
         spec = {'asn': k['peer_as'], 'families': fams, 'asn4': k['asn4']}
+        if k.get('nexthop_ext'):
+            confs[-1]['caps']['nexthop'] = True
+            confs[-1]['nexthop'] = [f'{FAM_TEXT[tuple(f)]} ipv6' for f in k['nexthop_ext']]
+            spec['nexthop'] = [(f[0], f[1], 2) for f in k['nexthop_ext']]
         if ap:
             spec['addpath'] = [(a, s, 2) for a, s in ap]
         speakers.append(Speaker(w, f'p{k["idx"]}', k['peer_ip'], k['peer_as'], k['peer_ip'], LOCAL, hold=180, caps=speaker_caps(spec)))
@@ -636,7 +651,7 @@ def _rib_attrs(ca: dict) -> dict:
 
 
 def _kd(k: dict) -> str:
-    return f'{"iBGP" if k["peer_as"] == 65001 else "eBGP"} peer-as {k["peer_as"]} asn4={k["asn4"]} add-path={[FAM_TEXT[tuple(f)] for f in k["addpath"]]}'
+    return f'{"iBGP" if k["peer_as"] == 65001 else "eBGP"} peer-as {k["peer_as"]} asn4={k["asn4"]} add-path={[FAM_TEXT[tuple(f)] for f in k["addpath"]]}{" extended-next-hop" if k.get("nexthop_ext") else ""}'
 
 
 def shrink_candidates(plan: dict):
